@@ -119,8 +119,35 @@ FORMERS_QUICK = ["Lambda", "Pi", "Application", "Let1", "Negation", "Sum", "Quot
 PAIR_LEAVES = ["Variable", "IntegerLiteral"]
 
 
-def make_pairs(H, ka, kb, family=False, formers=None):
+class GroupPairSpace(c12.HoleSpace):
+    """Groups of 1 or 2 definitions over leaves: slot 2 is the body of a 1-definition group and the
+    second annotation of a 2-definition group (restricted when the root is decided)."""
+
+    def on_decided(self, node, new, ex):
+        if node.depth == 1:
+            if new == frozenset(["Let2"]):
+                ex.restrict(node.kid(2), frozenset(["Integer"]))
+            elif new == frozenset(["Let1"]):
+                ex.restrict(node.kid(2), frozenset(["Variable", "IntegerLiteral"]))
+
+
+def group_pair_alpha(node):
+    # x : int = 1; y : int = 2; y   against   x : int = 1; x   (S-C06-02: groups of different size)
+    if node.depth == 1:
+        return ["Let1", "Let2"]
+    if node.slot == 0:
+        return ["Integer"]
+    if node.slot == 2:
+        return ["Integer", "Variable", "IntegerLiteral"]
+    if node.slot in (1, 3):
+        return ["IntegerLiteral"]          # closed definitions: the index-wise comparison is what is exercised
+    return ["IntegerLiteral", "Variable"]
+
+
+def make_pairs(H, ka, kb, family=False, formers=None, groups=False):
     alpha = [c for c in TC.HOLE_FREE if c not in ("Let2",)]
+    if groups:
+        family = True
     if family:
         # every former over leaves, on both sides: equal and unequal operands under binders and in
         # contexts; different formers fail at the root, so the cost is the same-former pairs
@@ -131,8 +158,8 @@ def make_pairs(H, ka, kb, family=False, formers=None):
         ex, it = H.engine(node_budget=None if family else ka + kb - 2, solver_timeout_ms=120000)
         ex.fuel = 40000
         it.max_call_depth = 500
-        sa = c12.HoleSpace("a", 2 if family else ka, alpha, 0)
-        sb = c12.HoleSpace("b", 2 if family else kb, alpha, 0)
+        sa = (GroupPairSpace("a", 2, group_pair_alpha, 0) if groups else c12.HoleSpace("a", 2 if family else ka, alpha, 0))
+        sb = (GroupPairSpace("b", 2, group_pair_alpha, 0) if groups else c12.HoleSpace("b", 2 if family else kb, alpha, 0))
         a, b = sa.root(), sb.root()
 
         def body(ex):
@@ -290,8 +317,12 @@ def main():
     parts = [("accepted programs B(%d): value = normal form, unify with reducts" % budget, make_programs(H, budget)),
              ("hole-free pairs %d+%d: symmetry and agreement with normal forms" % pair, make_pairs(H, *pair)),
              ("every former over leaves, both sides: symmetry, normal forms, context", make_pairs(H, 0, 0, family=True, formers=FORMERS_QUICK if quick else FORMERS)),
+             ("pairs of groups of 1 or 2 leaf definitions (equal and different sizes): symmetry, normal forms", make_pairs(H, 0, 0, groups=True)),
              ("groups of 3 leaf definitions: value = normal form", make_group_programs(H, 3)),
              ("reflexivity, %d nodes" % (3 if quick else 5), c12.make_reflexive(H, 3 if quick else 5))]
+    only = os.environ.get("C06_PARTS")
+    if only:
+        parts = [p for i, p in enumerate(parts) if str(i) in only.split(",")]
     for name, mk in parts:
         t0 = time.time()
         m = parallel_explore(mk, H.jobs)
